@@ -142,6 +142,12 @@ func (db *DB) Merge() error {
 			return err
 		}
 	}
+	// 重写过程中切换出的旧文件同样需要关闭: 持久化并 (mmap 模式下) 恢复文件真实大小
+	for _, file := range mergeDB.olderFiles {
+		if err := file.Close(); err != nil {
+			return err
+		}
+	}
 
 	// 在 merge 临时目录创建并打开 merge 完成标识文件
 	mergeFinishedFile, err := datafile.OpenFile(mergePath, 0,
